@@ -106,6 +106,7 @@ class Explorer:
         self.feas_axioms = True
         self.timeout_ms = timeout_ms
         self.merging = True
+        self.merge_light_only = True
         self.max_depth = 60
         self.max_unroll = 64
         self.max_paths = 5000
@@ -118,6 +119,7 @@ class Explorer:
         self.dump_dir = None
         self.refute_bound = [8, 24]
         self.refute_timeout_ms = 20000
+        self.refute_quick_ms = 8000
 
     # ----------------------------------------------------------------- misc
     def enqueue(self, prefix):
@@ -446,7 +448,7 @@ class Explorer:
             return 'bounded-unsat', secs + time.time() - t0, f'z3-bounded({B})', None
         return st, secs + time.time() - t0, backend, smt2
 
-    def _discharge(self, facts_pc, goal, timeout_ms=None, fallback=True):
+    def _discharge(self, facts_pc, goal, timeout_ms=None, fallback=True, skip_first=False, smt2=None):
         t0 = time.time()
         if goal is True:
             return 'unsat', 0.0, 'trivial', None
@@ -462,9 +464,12 @@ class Explorer:
             s.add(f)
         for a in ax:
             s.add(a)
-        r = s.check()
+        if skip_first:
+            r = z3.unknown
+        else:
+            r = s.check()
+            self.stats['queries'] += 1
         dt = time.time() - t0
-        self.stats['queries'] += 1
         if r == z3.unsat:
             return 'unsat', dt, 'z3', None
         smt2 = s.to_smt2()
@@ -506,15 +511,15 @@ class Explorer:
         except Exception:
             return 'error'
 
-    def refute(self, P, c, ob):
+    def refute(self, P, c, ob, bounds=None, timeout_ms=None):
         """bounded standard-model search for a counterexample of an open obligation"""
         from .refute import Concretizer, bounded_model, ghost_values
         g = z3.BoolVal(False) if ob.goal is False else as_z3bool(ob.goal)
         formulas = list(ob.pc) + [z3.Not(g)]
         status = 'none'
-        for B in self.refute_bound:
+        for B in (bounds or self.refute_bound):
             try:
-                status, model = bounded_model(formulas, B, self.refute_timeout_ms)
+                status, model = bounded_model(formulas, B, timeout_ms or self.refute_timeout_ms)
             except Exception as e:
                 return None, f'error: {e}'
             if model is not None:
@@ -572,7 +577,36 @@ class Explorer:
             inlined |= P.inlined
             modular |= P.modular
             for ob in P.obligations:
-                st, secs, backend, smt2 = self.discharge(ob.pc, ob.goal)
+                cex, rstatus = None, None
+                bounded_opt = c.opts.get('bounded')
+                if bounded_opt:
+                    st, secs, backend, smt2 = self.discharge(ob.pc, ob.goal)
+                else:
+                    # 1. proof attempt (z3)  2. quick bounded refutation  3. cvc5 / z3-retry  4. wider refutation
+                    st, secs, backend, smt2 = self._discharge(ob.pc, ob.goal, fallback=False)
+                    if st != 'unsat' and self.refute_bound:
+                        tr = time.time()
+                        cex, rstatus = self.refute(P, c, ob, self.refute_bound[:1], self.refute_quick_ms)
+                        secs += time.time() - tr
+                    if st != 'unsat' and cex is None:
+                        st2, secs2, backend2, smt2b = self._discharge(ob.pc, ob.goal, fallback=True, skip_first=True, smt2=smt2)
+                        secs += secs2
+                        if st2 == 'unsat':
+                            st, backend = st2, backend2
+                        elif self.refute_bound[1:]:
+                            tr = time.time()
+                            cex, rstatus = self.refute(P, c, ob, self.refute_bound[1:], self.refute_timeout_ms)
+                            secs += time.time() - tr
+                        bf = c.opts.get('bounded_fallback')
+                        if st != 'unsat' and cex is None and bf:
+                            # no proof and no counter-model: bounded stand-in for this path-query
+                            from .refute import bounded_model
+                            tr = time.time()
+                            g_ = z3.BoolVal(False) if ob.goal is False else as_z3bool(ob.goal)
+                            bst, _m = bounded_model(list(ob.pc) + [z3.Not(g_)], bf, c.opts.get('bounded_ms', 60000))
+                            secs += time.time() - tr
+                            if bst == 'unsat':
+                                st, backend = 'bounded-unsat', f'z3-bounded({bf})'
                 if os.environ.get('PYVC_LOG') and secs > 2:
                     print(f'[pyvc]    slow {ob.name}: {st} {secs:.1f}s {backend}', flush=True)
                 o = obl[ob.name]
@@ -587,9 +621,8 @@ class Explorer:
                     o['bounded'] = o.get('bounded', 0) + 1
                 else:
                     ent = {'status': st, 'trace': list(P.trace), 'decisions': _ser(P.decisions),
-                           'outcome': res.outcome, 'info': ob.info, 'smt2': smt2, 'cex': None}
-                    if self.refute_bound:
-                        ent['cex'], ent['refute_status'] = self.refute(P, c, ob)
+                           'outcome': res.outcome, 'info': ob.info, 'smt2': smt2, 'cex': cex,
+                           'refute_status': rstatus}
                     o['open'].append(ent)
             paths.append((res.outcome, len(P.obligations)))
         report = {
